@@ -89,3 +89,9 @@ def fill(claim, NA):
         "Trusted: CrossHair+z3 (finite pools; no symbolic floats), bs4 serialisation contract on the writer side, deterministic stand-in for hash() in geometry. The arithmetic over all values is C13.",
         "CrossHair symbolic execution + z3 over layout selectors",
     )
+    claim(
+        "C08",
+        "Induction over the chain instead of enumerating chains: for each of the five formats a hop lemma (public write then public read for SRT/WebVTT/MicroDVD with a symbolic instant or symbolic text; writer kernel composed with reader kernel through the serialisation contract for DFXP and SAMI) shows read(write(cue)) = (R_f(start), R_f(end), N(text)); z3 decides idempotence, absorption and monotonicity of the resolution maps over [0, 24 h), which yields coarsest-resolution preservation and no drift on a second pass for chains of any length.",
+        "Trusted: CrossHair+z3; E2-proved integer contracts for the MicroDVD float kernels; bs4/lxml serialisation contract for DFXP/SAMI; one symbolic instant per contract; degenerate cues (frame 0 only, zero length after truncation, collapsing pairs) excluded.",
+        "CrossHair symbolic execution of write-then-read + z3 LIA algebra (induction over chain length)",
+    )
